@@ -30,6 +30,7 @@ type End struct {
 	closed  bool  // closed locally
 	timeout bool  // injected: the armed read deadline fires
 	peer    *End
+	waiting bool
 
 	ReadDeadlineArmed bool
 	Writes            int
@@ -51,9 +52,11 @@ func (e *End) Read(b []byte) (int, error) {
 	if !vsched.Active() {
 		return 0, net.ErrClosed
 	}
+	e.waiting = true
 	vsched.WaitUntil("read "+e.Name, func() bool {
 		return len(e.in) > 0 || e.eof || e.rerr != nil || e.closed || e.timeout
 	})
+	e.waiting = false
 	if e.closed {
 		return 0, net.ErrClosed
 	}
@@ -133,8 +136,17 @@ func (e *End) InjectReadError(err error) { e.rerr = err }
 // if the code under test armed a read deadline; see ReadDeadlineArmed).
 func (e *End) FireReadTimeout() { e.timeout = true }
 
-func (e *End) Closed() bool   { return e.closed }
-func (e *End) Pending() int   { n := 0; for _, s := range e.in { n += len(s) }; return n }
+func (e *End) Closed() bool { return e.closed }
+
+// Waiting reports whether a reader is parked in Read.
+func (e *End) Waiting() bool { return e.waiting }
+func (e *End) Pending() int {
+	n := 0
+	for _, s := range e.in {
+		n += len(s)
+	}
+	return n
+}
 
 func (e *End) LocalAddr() net.Addr  { return addr{} }
 func (e *End) RemoteAddr() net.Addr { return addr{} }
